@@ -17,4 +17,5 @@ EXPLANATION = (
 
 
 def run(ctx: Ctx) -> None:
+    ctx.do(TR.rule_alt_paths)
     ctx.do(TR.rule_layout)
